@@ -289,6 +289,11 @@ func checkC04(p *Prog, r *Report) {
 	c04FlagRetention(p, o, r)
 	engineFailureRule(p, r, "R9")
 	mergeTruthTable(p, r, "R10")
+	deleteStageTable(p, r, "R11")
+	lintSubset(p, r, "R12", "along the write route no partial filter, delete filter, remoteWrite or persist value is passed, stored or received under the name of another of them (cross-wiring lint C02-R2 restricted to the update roles)", func(key string) bool {
+		k := strings.ToLower(key)
+		return strings.Contains(k, "filter") || strings.Contains(k, "remotewrite") || strings.Contains(k, "persist")
+	})
 	r.Rule("R6", "every per-type UpdateList assigns the merged list to the stored object only under success && persist and returns the engine's outcome (sibling template C02-R1): a rejected remote write is never persisted")
 	tb := BuildTables(p)
 	for _, nt := range tb.Updaters {
